@@ -39,7 +39,22 @@ def streams_for(size: str) -> list:
         raws = jwire.split_delimited(e["data"])
         if len(raws) == 1:
             extra.append({**e, "name": e["name"] + "/nondelim", "data": raws[0]})
-    return out + extra + [noise_stream()]
+    return out + extra + [noise_stream(), huge_frame_stream()]
+
+
+def huge_frame_stream() -> dict:
+    """One frame above 2 MiB (its length prefix has four bytes)."""
+    from mc import drivers as DR  # noqa: PLC0415
+    from mc.terms import I, L  # noqa: PLC0415
+
+    seq = [(I("http://h/s"), I("http://h/p"), L("first")),
+           (I("http://h/s"), I("http://h/p"), L("z" * 2_500_000)),
+           (I("http://h/s"), I("http://h/q"), L("last"))]
+    data = DR.g_write(seq, "triple", DR.make_options("triple", (16, 4, 4), 1, True))
+    e = corpus._entry("frame2m5/triple", "triple", data, True)
+    e["big"] = True
+    e["file_only"] = True
+    return e
 
 
 def noise_stream() -> dict:
@@ -72,6 +87,8 @@ def noise_stream() -> dict:
 def make_source(kind: str, data: bytes, schedule, default, tmpdir: str | None = None):
     if kind == "raw":
         return faultio.ScheduleRaw(data, schedule, default)
+    if kind == "response":
+        return faultio.ScheduleResponse(data, schedule, default)
     if kind == "buffered":
         return io.BufferedReader(faultio.ScheduleRaw(data, schedule, default), buffer_size=16)
     if kind == "seekable-buffered":
@@ -205,9 +222,20 @@ def shard(job) -> dict:
                     acc.violation({"source": source, "api": api, "mode": mode},
                                   f"{name} ({api} {mode}): {r}", case)
             if entry.get("file_only"):
+                for source in ("raw", "response", "buffered"):
+                    for default in (None, 65536, 8191):
+                        case = {"corpus": size, "stream": name, "api": api, "mode": mode,
+                                "source": source, "schedule": [], "default": default}
+                        acc.evals += 1
+                        acc.nontrivial += 1
+                        r = run_case(case)
+                        if r:
+                            acc.violation({"source": source, "mode": mode,
+                                           "short_first_read": False},
+                                          f"{name} ({api} {mode}): {r}", case)
                 continue
             for sched, default in schedules(entry, api, mode, max_dev):
-                for source in ("raw", "buffered", "seekable-buffered"):
+                for source in ("raw", "buffered", "seekable-buffered", "response"):
                     case = {"corpus": size, "stream": name, "api": api, "mode": mode,
                             "source": source, "schedule": list(sched), "default": default}
                     acc.evals += 1
@@ -246,7 +274,8 @@ def run(ctx) -> None:
             "non-seekable raw source whose readinto answers are choice points (default: full): all "
             "uniform schedules c=1..8, the cube of the first three read sizes {1..4}^3, every "
             f"schedule with <= {max_dev} deviation(s) (read #i returns 1, 2 or 3 bytes), each also "
-            "wrapped in BufferedReader(buffer 16); seekable sources BytesIO / file / unbuffered file "
+            "wrapped in BufferedReader(buffer 16) and as a plain io.IOBase 'response' object (neither "
+            "raw nor buffered); seekable sources BytesIO / file / unbuffered file "
             "/ gzip over BytesIO / gzip.open on a file (also a 240 kB incompressible stream); x "
             "{flat, grouped} x {generic, rdflib}; oracle: identical to parsing from BytesIO; "
             "non-trivial = schedule with at least one short read"
